@@ -75,6 +75,8 @@ func (v *PointerSchema) process(ctx *p.SchemaCtx) {
 			return
 		}
 		ctx.Data = val
+		// the pointed-to schema must see the decoded provider, not the factory (calling it again would re-read an already consumed body)
+		subCtx.Data = val
 	}
 	// End of messy code
 
